@@ -40,8 +40,14 @@ def jobs(tier):
     q = tier == "quick"
     out = []
     creators = ["1", "2a", "3a"] + ([] if q else ["2c", "3c"])
+    if q:
+        for which in ("2c", "3c"):
+            out.append(("create.%s.flat2" % which, "job_create", dict(which=which, shape="flat2", K=2, edits=0, mode="sizes")))
+            out.append(("create.%s.mixedcase2" % which, "job_create", dict(which=which, shape="mixedcase2", K=2, edits=0, mode="sizes")))
+    for version in (1, 3):
+        out.append(("edit-foreign-layout.v%d" % version, "job_edit_foreign", dict(version=version)))
     for which in creators:
-        for shape, K in [("single", 3), ("flat2", 2), ("order2", 2)] + ([] if q else [("nested3", 2)]):
+        for shape, K in [("single", 3), ("flat2", 2), ("order2", 2), ("mixedcase2", 2)] + ([] if q else [("nested3", 2)]):
             out.append(("create.%s.%s" % (which, shape), "job_create", dict(which=which, shape=shape, K=K, edits=0, mode="sizes")))
         out.append(("create-opts.%s" % which, "job_create", dict(which=which, shape="flat2", K=2, edits=0, mode="opts")))
         out.append(("create+edit.%s" % which, "job_create", dict(which=which, shape="flat2", K=2, edits=1 if q else 2, mode="edits")))
@@ -262,6 +268,48 @@ def job_edits(E, version, n, _mutants=None):
     E.witnesses.setdefault("two piece-layer entries", True)
 
 
+def job_edit_foreign(E, version, _mutants=None):
+    """Metafiles laid out the way other tools write them: a single announce key
+    without announce-list, comment and source at the top level. Every edit must
+    still leave a canonical file."""
+    from symx.loader import ben_copy
+    force = {k: False for k in ALLKEYS}
+    force.update({"comment-top": True, "layers": True})
+    base = ew.base_meta(E, version, force)
+    variant = E.choice("foreign", 3)
+    if variant in (0, 2):
+        base["announce"] = OStr("base.announce", nonempty=True)          # no announce-list
+    if variant in (1, 2):
+        base["source"] = OStr("base.topsource", nonempty=True)            # top-level source (non-standard but legal)
+    base = dict(sorted(base.items()))
+    fs = AFS()
+    fs.add_token(ew.MPATH, BenTok(ben_copy(base)))
+    w = World(fs, mutants=_mutants)
+    kinds = {}
+    for f, opts in {"announce": ["unnamed", "list2", "str"], "comment": ["unnamed", "str"], "source": ["unnamed", "str"],
+                    "private": ["unnamed", "true"]}.items():
+        kinds[f] = opts[E.choice("e0.%s" % f, len(opts))]
+    req = ew.request(E, kinds, tag="e0")
+    for v in req.values():
+        if isinstance(v, OStr):
+            v._nonempty = True
+    try:
+        w.mod("edit").edit_torrent(ew.MPATH, dict(req))
+    except Unsupported:
+        raise
+    except Exception as ex:  # noqa: BLE001
+        if any(isinstance(v, OStr) and f in ew.TOP and v._split.get(None) == [] for f, v in req.items()):
+            return
+        E.fail("C06.edit.no-exception", "%s: %s" % (type(ex).__name__, ex))
+        return
+    for d in w.dumps_log:
+        if d[0] == "dump":
+            check_canonical(E, d[1], "C06.edit")
+            check_structure(E, d[1], version, "C06.edit")
+    for k in WITNESSES:
+        E.witnesses.setdefault(k, True)
+
+
 LEN_STEP = {"comment": ["unnamed", "cleared", "str"], "source": ["unnamed", "str"], "announce": ["unnamed", "cleared", "list1"]}
 
 
@@ -375,6 +423,30 @@ def replay(params, model, notes, workdir, seed):
             if bad:
                 return bad
         return bad
+    if "n" not in params and "which" not in params and "foreign" in model:
+        from harness import c07 as _c07
+        version = params["version"]
+        base = _c07.conc_base(version, {"base.comment-top": 1})
+        base["comment"] = "top level comment"
+        variant = int(model.get("foreign", 0))
+        if variant in (0, 2):
+            base["announce"] = "http://only/announce"
+        if variant in (1, 2):
+            base["source"] = "top source"
+        mpath = os.path.join(workdir, "m.torrent")
+        with open(mpath, "wb") as f:
+            f.write(refconc.bencode(base))
+        req = {}
+        for f_, opts in {"announce": ["unnamed", "list2", "str"], "comment": ["unnamed", "str"], "source": ["unnamed", "str"],
+                         "private": ["unnamed", "true"]}.items():
+            v = _c07.conc_value(opts[int(model.get("e0.%s" % f_, 0))], f_, max(1, int(model.get("reqe0.%s.words" % f_, 1))), "e0")
+            if v is not None:
+                req[f_] = v
+        try:
+            mods["torrentfile.edit"].edit_torrent(mpath, dict(req))
+        except Exception as ex:  # noqa: BLE001
+            return ["C06.edit.no-exception: %s" % ex]
+        return _strict(mpath, version)
     if "n" not in params:
         return _replay_lengths(params, model, workdir, mods)
     version, n = params["version"], params["n"]
